@@ -14,7 +14,7 @@ pub fn mon() -> Mon {
         run,
         finish,
         replay,
-        rule: "Seeded random histories (length 1-300 over two or three independent contexts interleaved; one in 40 is a single-context history of 300-800 operations), drawn from: Set Endpoint ID requests (Set / Force, EID 0x01-0xFE), Set-Discovered-Flag, Get Endpoint ID, the other identity queries, control responses (including Set Endpoint ID responses carrying an EID), PCI/IANA/SPDM/secured messages, PEC- and header-corrupted and truncated Set Endpoint ID requests, decode-only calls on all of those, set_eid on either half, get_length, Reset/reserved Set-EID operations, unsupported requests and random garbage; plus all sequences of length <= 4 over a 9-letter alphabet of those operation kinds, plus 'observe - N mutations - observe' histories for every N in 1..600 (and N = 65535, 65536, 65537 for the two pure mutators) and five mutator kinds (assignments, accessor writes, mixtures) with no other observation in between. After EVERY step both EID accessors are compared with a sequential model (two cells, assigned by accepted Set/Force requests and by accessor writes), and Set/Get Endpoint ID responses are compared with the model (Success + accepted + new EID; completion code 2 for Set-Discovered-Flag; current EID in Get Endpoint ID). A sample of histories is logged as JSONL and re-checked by an independent Python model. Non-trivial = a history in which at least one assignment and one non-assigning operation occurred; distinct = distinct histories (hash of all operations).",
+        rule: "Seeded random histories (length 1-300 over two or three independent contexts interleaved; one in 40 is a single-context history of 300-800 operations), drawn from: Set Endpoint ID requests (Set / Force, EID 0x01-0xFE), Set-Discovered-Flag, Get Endpoint ID, the other identity queries, control responses (including Set Endpoint ID responses carrying an EID), PCI/IANA/SPDM/secured messages, PEC- and header-corrupted and truncated Set Endpoint ID requests, decode-only calls on all of those, set_eid on either half, get_length, Reset/reserved Set-EID operations, unsupported requests and random garbage; plus all sequences of length <= 4 over a 9-letter alphabet of those operation kinds, plus 'observe - N mutations - observe' histories for every N in 1..600 (and N = 65535, 65536, 65537 for the two pure mutators) and six mutator kinds (assignments, accessor writes, mixtures) with no other observation in between. After EVERY step both EID accessors are compared with a sequential model (two cells, assigned by accepted Set/Force requests and by accessor writes), and Set/Get Endpoint ID responses are compared with the model (Success + accepted + new EID; completion code 2 for Set-Discovered-Flag; current EID in Get Endpoint ID). A sample of histories is logged as JSONL and re-checked by an independent Python model. Non-trivial = a history in which at least one assignment and one non-assigning operation occurred; distinct = distinct histories (hash of all operations).",
         assumptions: &[
             "EID values 0x00 and 0xFF in Set Endpoint ID requests are outside the quantifier and not generated",
             "an accessor write changes the half it is called on; responses report the response half (the statement's 'value since stored directly through an accessor')",
@@ -176,13 +176,22 @@ pub fn run_history(h: &History, letters: Option<&[Letter]>, owned: &Owned, prop_
 
 fn gen_history(rng: &mut Rng, len: usize, nctx: usize) -> (History, Vec<Letter>) {
     let cfgs: Vec<CtxCfg> = (0..nctx).map(|_| CtxCfg::random(rng, true)).collect();
-    let models: Vec<Model> = cfgs.iter().map(Model::new).collect();
+    // the generator keeps its own copy of the model up to date so that later operations can refer
+    // to the endpoint's current identity (UUID, EID)
+    let mut models: Vec<Model> = cfgs.iter().map(Model::new).collect();
     let mut ops = Vec::with_capacity(len);
     let mut letters = Vec::with_capacity(len);
     for _ in 0..len {
         let ci = rng.below(nctx as u64) as usize;
         let l = pick_letter(rng, &WEIGHTS);
-        ops.push((ci, instantiate(l, rng, &models[ci])));
+        let op = instantiate(l, rng, &models[ci]);
+        match &op {
+            Op::Process(x) => {
+                let _ = models[ci].process(x);
+            }
+            o => models[ci].apply_non_packet(o),
+        }
+        ops.push((ci, op));
         letters.push(l);
     }
     (History { cfgs, ops }, letters)
@@ -235,7 +244,7 @@ fn run(cfg: &RunCfg) -> Report {
     if !small {
         let mut idx = 0u64;
         let mut nh = 0u64;
-        for mutator in 0..5u8 {
+        for mutator in 0..6u8 {
             // every N up to 600, and the wrap points of a 16-bit counter for the two pure mutators
             let ns_list: Vec<usize> = if mutator <= 1 { (1..=600).chain([65_535usize, 65_536, 65_537]).collect() } else { (1..=600).collect() };
             for n in ns_list {
@@ -263,7 +272,7 @@ fn run(cfg: &RunCfg) -> Report {
                 letters.push(Letter::GetEid);
                 for _ in 0..n {
                     let l = match mutator {
-                        0 | 4 => Letter::SetEid,
+                        0 | 4 | 5 => Letter::SetEid,
                         1 => Letter::Accessor,
                         2 => *rng.pick(&[Letter::SetEid, Letter::Accessor]),
                         _ => *rng.pick(&[Letter::SetEid, Letter::Corrupted, Letter::ResponsePacket, Letter::Query, Letter::SetDiscovered]),
@@ -271,6 +280,15 @@ fn run(cfg: &RunCfg) -> Report {
                     let op = match (mutator, l) {
                         // mutator 1: response-half accessor writes only
                         (1, _) => Op::AccResp(rng.byte()),
+                        // mutator 5: assignments from ONE requester with identical addresses, tag,
+                        // instance ID and operation; only the EID and the destination EID byte vary,
+                        // so many pairs of different requests share their 8-bit PEC
+                        (5, _) => {
+                            let mut p = crate::refmodel::forge::ctrl_request(own, requester, 3, false, 0x01, &[(n & 1) as u8, rng.range(1, 0xFE) as u8]);
+                            p[5] = rng.byte();
+                            crate::refmodel::forge::fix_pec(&mut p);
+                            Op::Process(p)
+                        }
                         _ => instantiate(l, &mut rng, &m),
                     };
                     ops.push((0, op));
@@ -325,8 +343,8 @@ fn finish(rep: &mut Report, cfg: &RunCfg) {
         return;
     }
     floor(rep, cfg, 5_000);
-    if rep.classes.get("observe-N-mutations-observe-histories").copied().unwrap_or(0) == 3006 {
-        rep.exhaustive_spaces.push("every number N in 1..=600 of state changes between two observations of the EID, for 5 mutator kinds".into());
+    if rep.classes.get("observe-N-mutations-observe-histories").copied().unwrap_or(0) == 3606 {
+        rep.exhaustive_spaces.push("every number N in 1..=600 of state changes between two observations of the EID, for 6 mutator kinds".into());
     } else {
         rep.inconclusive.push("observe-N-mutations-observe sweep incomplete".into());
     }
